@@ -31,13 +31,13 @@ let first_of (s : string) = if s = "_" then None else Some (L.hd (split_on ',' s
 let parse_op (s : string) : op =
   match split_on ':' s with
   | ["A"; ts; m; lang] -> AddEmptyTrack (ni ts, str_of_hex m, str_of_hex lang)
-  | ["V"; k; name; spss; ppss; incl; pr] ->
+  | ["V"; k; name; spss; ppss; incl; pr; _] ->
     (match first_of spss, dots pr with
      | Some h, [w; hh; p; c; l; cf; bl; bc] ->
        Hashtbl.replace avc_tab h ((ni w, ni hh), (((ni p, ni c), ni l), ((ni cf, ni bl), ni bc)))
      | _ -> ());
     SetDesc (nat_of_int (int_of_string k), DAvc (str_of_hex name, strs_of spss, strs_of ppss, incl = "1"))
-  | ["H"; k; name; vpss; spss; ppss; seis; incl; pr] ->
+  | ["H"; k; name; vpss; spss; ppss; seis; incl; pr; _] ->
     (match first_of spss, dots pr with
      | Some h, w :: hh :: cfg when pr <> "N" -> Hashtbl.replace hevc_tab h ((ni w, ni hh), L.map ni cfg)
      | _ -> ());
@@ -146,6 +146,497 @@ let hevc_decode_obs (data : BinNums.coq_N list) : string =
   | Base.Ok r -> hvcrec_string true r ^ "|" ^ hex_of_str (hvcrec_encode r)
   | _ -> "ERR"
 
+
+(* ------------------------------------------------------------------ generated parameter sets (GEN)
+   The SERIALISERS are the extracted specification functions of C15 (coq/c15/C15Spec.v nalu_sps / nalu_pps,
+   coq/c15/C15HevcSpec.v hnalu_sps / hnalu_pps: syntax tables of 14496-10 7.3.2 / 23008-2 7.3.2 written from field
+   values, independent of the parsers), their validity predicates (sps_valid ...) select the field values.
+   The random choice of field values below is the generator of ocaml/c15_driver.ml (copied: a driver is a single
+   file), with the scope of C19's quantifier: picture sizes below 2^16 (the sample entry's 16-bit fields), HEVC bit
+   depths 8..14 (the hvcC field has 3 bits), general_profile_idc mostly 1..11.  The expected values printed with
+   each set come from the FIELD VALUES (C15Spec.display_width ... / C15HevcSpec.expected_himage_size, constraint48),
+   not from any parser. *)
+module G = struct
+  open BinNums
+  open C15Model
+  open C15Spec
+  open C15HevcModel
+  open C15HevcSpec
+  let st = ref 0L
+  let seed_rng (s : int) = st := Int64.add (Int64.mul (Int64.of_int s) 0x9E3779B97F4A7C15L) 0x1234567L
+  let u64 () : int64 =
+    st := Int64.add !st 0x9E3779B97F4A7C15L;
+    let z = !st in
+    let z = Int64.mul (Int64.logxor z (Int64.shift_right_logical z 30)) 0xBF58476D1CE4E5B9L in
+    let z = Int64.mul (Int64.logxor z (Int64.shift_right_logical z 27)) 0x94D049BB133111EBL in
+    Int64.logxor z (Int64.shift_right_logical z 31)
+  let intn (n : int) : int = if n <= 0 then 0 else Int64.to_int (Int64.unsigned_rem (u64 ()) (Int64.of_int n))
+  let range lo hi = lo + intn (hi - lo + 1)
+  let coin () = intn 2 = 1
+  let pct p = intn 100 < p
+  let pick (l : int list) = L.nth l (intn (L.length l))
+  let n = n_of_int
+  let z = z_of_int
+  (* ue-coded values: mostly small, sometimes at the powers of two, sometimes large *)
+  let ue_val (maxv : int) : int =
+    let v = match intn 10 with
+      | 0 -> 0
+      | 1 | 2 -> (1 lsl (intn 20)) - 1 + intn 3
+      | 3 -> maxv - intn 2
+      | _ -> intn 40 in
+    if v < 0 then 0 else if v > maxv then maxv else v
+  let se_val (m : int) : int =
+    match intn 8 with
+    | 0 -> 0
+    | 1 -> m - intn 2
+    | 2 -> - (m - intn 2)
+    | _ -> range (-20) 20
+
+  let gen_scaling (size : int) : coq_Z list =
+    let last = ref 8 and next = ref 8 and ds = ref [] in
+    for _j = 0 to size - 1 do
+      if !next <> 0 then begin
+        let d =
+          if pct 6 then (let d0 = - !last in if d0 < -128 then d0 + 256 else d0)   (* makes nextScale 0 *)
+          else range (-128) 127 in
+        let d = if d > 127 then d - 256 else d in
+        ds := d :: !ds;
+        next := ((!last + d + 256) mod 256 + 256) mod 256
+      end;
+      let x = if !next = 0 then !last else !next in
+      last := x
+    done;
+    L.rev_map z !ds
+
+  let gen_hrd () : hrd_syntax =
+    let cnt = if pct 10 then 31 else intn 4 in
+    { cpb_cnt_minus1 = n cnt; bit_rate_scale = n (intn 16); cpb_size_scale = n (intn 16);
+      cpb_list = L.init (cnt + 1) (fun _ -> ((n (ue_val 0xfffffffe), n (ue_val 0xfffffffe)), coin ()));
+      initial_cpb_removal_delay_length_minus1 = n (intn 32);
+      cpb_removal_delay_length_minus1 = n (intn 32);
+      dpb_output_delay_length_minus1 = n (intn 32); time_offset_length = n (intn 32) }
+
+  let gen_vui () : vui_syntax =
+    { aspect_ratio_info_present_flag = pct 70;
+      aspect_ratio_idc = n (match intn 10 with 0 -> 255 | 1 | 2 -> 255 | 3 -> 0 | _ -> range 1 16);
+      sar_width = n (if coin () then intn 65536 else range 1 200);
+      sar_height = n (if coin () then intn 65536 else range 1 200);
+      overscan_info_present_flag = coin (); overscan_appropriate_flag = coin ();
+      video_signal_type_present_flag = coin (); video_format = n (intn 8);
+      video_full_range_flag = coin (); colour_description_present_flag = coin ();
+      colour_primaries = n (intn 256); transfer_characteristics = n (intn 256);
+      matrix_coefficients = n (intn 256);
+      chroma_loc_info_present_flag = coin ();
+      chroma_sample_loc_type_top_field = n (intn 6); chroma_sample_loc_type_bottom_field = n (intn 6);
+      timing_info_present_flag = pct 70;
+      num_units_in_tick = n (if coin () then 1 + intn 5000 else 0xffffffff - intn 3);
+      time_scale = n (if coin () then 1 + intn 200000 else 0xffffffff - intn 3);
+      fixed_frame_rate_flag = coin ();
+      nal_hrd_parameters_present_flag = pct 40; nal_hrd = gen_hrd ();
+      vcl_hrd_parameters_present_flag = pct 40; vcl_hrd = gen_hrd ();
+      low_delay_hrd_flag = coin (); pic_struct_present_flag = coin ();
+      bitstream_restriction_flag = coin (); motion_vectors_over_pic_boundaries_flag = coin ();
+      max_bytes_per_pic_denom = n (intn 17); max_bits_per_mb_denom = n (intn 17);
+      log2_max_mv_length_horizontal = n (intn 17); log2_max_mv_length_vertical = n (intn 17);
+      max_num_reorder_frames = n (intn 17); max_dec_frame_buffering = n (intn 17) }
+
+  let high_profiles = [100; 110; 122; 244; 44; 83; 86; 118; 128; 138; 139; 134; 135]
+
+  let gen_sps () : sps_syntax =
+    let profile = match intn 10 with
+      | 0 | 1 | 2 -> pick [66; 77; 88]
+      | 3 -> intn 256
+      | _ -> pick high_profiles in
+    let chroma = if pct 40 then 1 else intn 4 in
+    let nlists = if chroma = 3 then 12 else 8 in
+    let fmo = pct 60 in
+    let wm = if pct 10 then intn 4095 else range 0 300 in
+    let hm = if pct 10 then intn 2047 else range 0 200 in
+    let is_high = L.mem profile high_profiles in
+    let sep = coin () in
+    let eff_chroma = if is_high then chroma else 1 in
+    let cat = if is_high && chroma = 3 && sep then 0 else eff_chroma in
+    let f = if fmo then 1 else 0 in
+    let cux = if cat = 0 then 1 else if eff_chroma = 3 then 1 else 2 in
+    let cuy = if cat = 0 then 2 - f else (if eff_chroma = 1 then 2 else 1) * (2 - f) in
+    let wpx = (wm + 1) * 16 and hpx = (2 - f) * (hm + 1) * 16 in
+    (* crop offsets: cux*(l+r) < wpx, cuy*(t+b) < hpx *)
+    let maxw = (wpx - 1) / cux and maxh = (hpx - 1) / cuy in
+    let split m = let tot = if pct 30 then m else intn (min m 40 + 1) in let a = intn (tot + 1) in (a, tot - a) in
+    let (cl, cr) = split maxw and (ct, cb) = split maxh in
+    let poc = intn 3 in
+    let offs_zero = pct 70 in
+    let ncyc = if pct 5 then 255 else intn 5 in
+    { sps_nal_ref_idc = n (range 0 3);
+      profile_idc = n profile;
+      constraint_set0_flag = coin (); constraint_set1_flag = coin (); constraint_set2_flag = coin ();
+      constraint_set3_flag = coin (); constraint_set4_flag = coin (); constraint_set5_flag = coin ();
+      level_idc = n (if coin () then pick [9; 10; 11; 12; 13; 20; 21; 22; 30; 31; 32; 40; 41; 42; 50; 51; 52; 60; 61; 62] else intn 256);
+      seq_parameter_set_id = n (if coin () then 0 else intn 32);
+      chroma_format_idc = n chroma; separate_colour_plane_flag = sep;
+      bit_depth_luma_minus8 = n (if coin () then 0 else intn 7);
+      bit_depth_chroma_minus8 = n (if coin () then 0 else intn 7);
+      qpprime_y_zero_transform_bypass_flag = coin ();
+      seq_scaling_matrix_present_flag = pct 35;
+      seq_scaling_lists = L.init nlists (fun i -> if coin () then None else Some (gen_scaling (if i < 6 then 16 else 64)));
+      log2_max_frame_num_minus4 = n (intn 13);
+      pic_order_cnt_type = n poc;
+      log2_max_pic_order_cnt_lsb_minus4 = n (intn 13);
+      delta_pic_order_always_zero_flag = coin ();
+      offset_for_non_ref_pic = z (if offs_zero then 0 else se_val 2147483647);
+      offset_for_top_to_bottom_field = z (if offs_zero then 0 else se_val 2147483647);
+      offset_for_ref_frame = L.init ncyc (fun _ -> z (if offs_zero then 0 else se_val 2147483647));
+      max_num_ref_frames = n (intn 17);
+      gaps_in_frame_num_value_allowed_flag = coin ();
+      pic_width_in_mbs_minus1 = n wm; pic_height_in_map_units_minus1 = n hm;
+      frame_mbs_only_flag = fmo; mb_adaptive_frame_field_flag = coin ();
+      direct_8x8_inference_flag = coin ();
+      frame_cropping_flag = pct 60;
+      frame_crop_left_offset = n cl; frame_crop_right_offset = n cr;
+      frame_crop_top_offset = n ct; frame_crop_bottom_offset = n cb;
+      vui_parameters_present_flag = pct 50;
+      vui_params = gen_vui () }
+
+  let rejected = ref 0
+  let gen_pps (chroma : int) : pps_syntax =
+    let nsg = if pct 60 then 0 else range 1 7 in
+    let mt = intn 7 in
+    let t8 = coin () in
+    let nlists = 6 + (if t8 then (if chroma = 3 then 6 else 2) else 0) in
+    let nids = if pct 10 then range 100 400 else range 1 12 in
+    { pps_nal_ref_idc = n (range 0 3);
+      pic_parameter_set_id = n (if coin () then intn 4 else intn 256);
+      pps_seq_parameter_set_id = n (if coin () then intn 4 else intn 32);
+      entropy_coding_mode_flag = coin (); bottom_field_pic_order_in_frame_present_flag = coin ();
+      num_slice_groups_minus1 = n nsg; slice_group_map_type = n mt;
+      run_length_minus1 = L.init (nsg + 1) (fun _ -> n (ue_val 0xfffffffe));
+      top_left_bottom_right = L.init nsg (fun _ -> (n (ue_val 100000), n (ue_val 100000)));
+      slice_group_change_direction_flag = coin (); slice_group_change_rate_minus1 = n (ue_val 100000);
+      slice_group_id = L.init nids (fun _ -> n (intn (nsg + 1)));
+      num_ref_idx_l0_default_active_minus1 = n (intn 32); num_ref_idx_l1_default_active_minus1 = n (intn 32);
+      weighted_pred_flag = coin (); weighted_bipred_idc = n (intn 3);
+      pic_init_qp_minus26 = z (range (-26) 25); pic_init_qs_minus26 = z (range (-26) 25);
+      chroma_qp_index_offset = z (range (-12) 12);
+      deblocking_filter_control_present_flag = coin (); constrained_intra_pred_flag = coin ();
+      redundant_pic_cnt_present_flag = coin ();
+      pps_has_tail = pct 70;
+      transform_8x8_mode_flag = t8; pic_scaling_matrix_present_flag = pct 50;
+      pic_scaling_lists = L.init nlists (fun i -> if coin () then None else Some (gen_scaling (if i < 6 then 16 else 64)));
+      second_chroma_qp_index_offset = z (range (-12) 12) }
+  let rec gen_valid_sps id =
+    let v = { (gen_sps ()) with seq_parameter_set_id = n id } in
+    if sps_valid v then v else (incr rejected; gen_valid_sps id)
+  let rec gen_valid_pps chroma id spsid =
+    let v = { (gen_pps chroma) with pic_parameter_set_id = n id; pps_seq_parameter_set_id = n spsid } in
+    if pps_valid (n chroma) v then v else (incr rejected; gen_valid_pps chroma id spsid)
+  let eff_chroma (sp : sps_syntax) = int_of_n (eff_chroma_format_idc sp)
+  let nb = n
+  let gen_hprofile () : hprofile_syntax =
+    { sx_profile_space = nb (if pct 70 then 0 else intn 4); sx_tier_flag = coin ();
+      sx_profile_idc = nb (if pct 90 then range 1 11 else intn 32);
+      sx_profile_compatibility_flags = nb (match intn 4 with 0 -> 0x60000000 | 1 -> 0x40000000 | 2 -> 0xffffffff - intn 3 | _ -> intn 0x7fffffff);
+      sx_progressive_source_flag = coin (); sx_interlaced_source_flag = coin ();
+      sx_non_packed_constraint_flag = coin (); sx_frame_only_constraint_flag = coin ();
+      sx_constraint_43bits = (match intn 4 with 0 -> nb 0 | 1 -> nb ((1 lsl 43) - 1 - intn 2) | 2 -> nb ((intn 256) lsl (8 * intn 5)) | _ -> nb (intn (1 lsl 30) * 8191 + intn 8191));
+      sx_inbld_flag = pct 20 }
+
+  let gen_hptl (ms : int) : hptl_syntax =
+    { sx_general = gen_hprofile ();
+      sx_general_level_idc = nb (if pct 70 then pick [30; 60; 63; 90; 93; 120; 123; 150; 153; 156; 180; 183; 186] else intn 256);
+      sx_sub_layers = L.init ms (fun _ ->
+          { sx_sub_profile_present = coin (); sx_sub_level_present = coin ();
+            sx_sub_profile = gen_hprofile (); sx_sub_level_idc = nb (intn 256) }) }
+
+  let gen_hsl_entry (size_id : int) : hsl_entry =
+    if pct 75 then SlPred (nb (intn 6))
+    else
+      let cn = min 64 (1 lsl (4 + 2 * size_id)) in
+      SlCoefs (z (range (-7) 247), L.init cn (fun _ -> z (if pct 80 then range (-4) 4 else range (-128) 127)))
+
+  let gen_hsl () : hsl_syntax =
+    { sx_sl0 = L.init 6 (fun _ -> gen_hsl_entry 0); sx_sl1 = L.init 6 (fun _ -> gen_hsl_entry 1);
+      sx_sl2 = L.init 6 (fun _ -> gen_hsl_entry 2); sx_sl3 = L.init 2 (fun _ -> gen_hsl_entry 3) }
+
+  let gen_rps_explicit (small : bool) : hrps_syntax =
+    let m = if small then 3 else if pct 10 then 16 else 5 in
+    let e () = (nb (if pct 85 then intn 4 else ue_val 32767), coin ()) in
+    RpsExplicit (L.init (intn (m + 1)) (fun _ -> e ()), L.init (intn (m + 1)) (fun _ -> e ()))
+
+  (* one st_ref_pic_set for position idx (num = number of sets in the SPS; idx = num: slice header).
+     chain_pct: probability of inter prediction *)
+  let gen_rps (prev : rps_derived list) (idx : int) (num : int) (chain_pct : int) : hrps_syntax =
+    if idx = 0 || not (pct chain_pct) then gen_rps_explicit (pct 60)
+    else begin
+      let res = ref None in
+      let tries = ref 0 in
+      while !res = None && !tries < 12 do
+        incr tries;
+        let di = if idx = num then (if pct 50 then 0 else intn idx) else 0 in
+        let refd = L.nth prev (idx - (di + 1)) in
+        let nd = int_of_n (d_num_delta refd) in
+        let fls = L.init (nd + 1) (fun _ -> let u = pct 60 in (u, (if u then true else pct 60))) in
+        let r = RpsInter (nb di, coin (), nb (if pct 80 then intn 4 else ue_val 32767), fls) in
+        if hrps_valid prev (nb idx) (nb num) r then res := Some r
+      done;
+      match !res with Some r -> r | None -> gen_rps_explicit true
+    end
+
+  let gen_rps_list (num : int) (chain_pct : int) : hrps_syntax list * rps_derived list =
+    let prev = ref [] and out = ref [] in
+    for idx = 0 to num - 1 do
+      let r = gen_rps !prev idx num chain_pct in
+      out := !out @ [r];
+      prev := !prev @ [derive_one !prev (nb idx) r]
+    done;
+    (!out, !prev)
+
+  let gen_hcpb () : hcpb_syntax =
+    { sx_bit_rate_value_minus1 = nb (ue_val 0xfffffffe); sx_cpb_size_value_minus1 = nb (ue_val 0xfffffffe);
+      sx_cpb_size_du_value_minus1 = nb (ue_val 0xfffffffe); sx_bit_rate_du_value_minus1 = nb (ue_val 0xfffffffe);
+      sx_cbr_flag = coin () }
+
+  let gen_hhrd (ms : int) : hhrd_syntax =
+    let nal = pct 60 and vcl = pct 40 in
+    { sx_nal_hrd_parameters_present_flag = nal; sx_vcl_hrd_parameters_present_flag = vcl;
+      sx_sub_pic_hrd_params_present_flag = pct 40; sx_tick_divisor_minus2 = nb (intn 256);
+      sx_du_cpb_removal_delay_increment_length_minus1 = nb (intn 32);
+      sx_sub_pic_cpb_params_in_pic_timing_sei_flag = coin ();
+      sx_dpb_output_delay_du_length_minus1 = nb (intn 32); sx_bit_rate_scale = nb (intn 16);
+      sx_cpb_size_scale = nb (intn 16); sx_cpb_size_du_scale = nb (intn 16);
+      sx_initial_cpb_removal_delay_length_minus1 = nb (intn 32);
+      sx_au_cpb_removal_delay_length_minus1 = nb (intn 32); sx_dpb_output_delay_length_minus1 = nb (intn 32);
+      sx_hrd_sub_layers = L.init (ms + 1) (fun _ ->
+          let fg = coin () and fc = coin () and ld = coin () in
+          let cnt = if pct 10 then 31 else intn 3 in
+          let eff = if (not (fg || fc)) && ld then 0 else cnt in
+          { sx_fixed_pic_rate_general_flag = fg; sx_fixed_pic_rate_within_cvs_flag = fc;
+            sx_elemental_duration_in_tc_minus1 = nb (if coin () then intn 4 else intn 2048);
+            sx_low_delay_hrd_flag = ld; sx_cpb_cnt_minus1 = nb cnt;
+            sx_nal_cpbs = L.init (eff + 1) (fun _ -> gen_hcpb ());
+            sx_vcl_cpbs = L.init (eff + 1) (fun _ -> gen_hcpb ()) }) }
+
+  let gen_hvui (ms : int) : hvui_syntax =
+    { sx_aspect_ratio_info_present_flag = pct 60;
+      sx_aspect_ratio_idc = nb (match intn 10 with 0 | 1 | 2 -> 255 | 3 -> 0 | _ -> range 1 16);
+      sx_sar_width = nb (if coin () then intn 65536 else range 1 200);
+      sx_sar_height = nb (if coin () then intn 65536 else range 1 200);
+      sx_overscan_info_present_flag = coin (); sx_overscan_appropriate_flag = coin ();
+      sx_video_signal_type_present_flag = coin (); sx_video_format = nb (intn 8);
+      sx_video_full_range_flag = coin (); sx_colour_description_present_flag = coin ();
+      sx_colour_primaries = nb (intn 256); sx_transfer_characteristics = nb (intn 256);
+      sx_matrix_coeffs = nb (intn 256);
+      sx_chroma_loc_info_present_flag = coin ();
+      sx_chroma_sample_loc_type_top_field = nb (intn 6); sx_chroma_sample_loc_type_bottom_field = nb (intn 6);
+      sx_neutral_chroma_indication_flag = coin (); sx_field_seq_flag = coin ();
+      sx_frame_field_info_present_flag = coin ();
+      sx_default_display_window_flag = pct 40;
+      sx_def_disp_win_left_offset = nb (ue_val 5000); sx_def_disp_win_right_offset = nb (ue_val 5000);
+      sx_def_disp_win_top_offset = nb (ue_val 5000); sx_def_disp_win_bottom_offset = nb (ue_val 5000);
+      sx_vui_timing_info_present_flag = pct 70;
+      sx_vui_num_units_in_tick = nb (if coin () then 1 + intn 5000 else 0xffffffff - intn 3);
+      sx_vui_time_scale = nb (if coin () then 1 + intn 200000 else 0xffffffff - intn 3);
+      sx_vui_poc_proportional_to_timing_flag = coin ();
+      sx_vui_num_ticks_poc_diff_one_minus1 = nb (ue_val 0xfffffffe);
+      sx_vui_hrd_parameters_present_flag = pct 50; sx_vui_hrd = gen_hhrd ms;
+      sx_bitstream_restriction_flag = coin (); sx_tiles_fixed_structure_flag = coin ();
+      sx_motion_vectors_over_pic_boundaries_flag = coin (); sx_restricted_ref_pic_lists_flag = coin ();
+      sx_min_spatial_segmentation_idc = nb (if coin () then 0 else intn 4096);
+      sx_max_bytes_per_pic_denom = nb (intn 17); sx_max_bits_per_min_cu_denom = nb (intn 17);
+      sx_log2_max_mv_length_horizontal = nb (intn 16); sx_log2_max_mv_length_vertical = nb (intn 16) }
+
+  (* picture dimensions: on and off the CTB grid, CTB counts on both sides of the powers of two *)
+  let gen_dims () : int * int =
+    match intn 10 with
+    | 0 -> (960, 540) | 1 -> (176, 144) | 2 -> (1920, 1080) | 3 -> (416, 240) | 4 -> (3840, 2160)
+    | 5 -> (8 * range 1 64, 8 * range 1 64)
+    | 6 -> (64 * range 1 20, 64 * range 1 12)
+    | 7 -> (64 * range 1 20 + 8 * range 1 7, 64 * range 1 12 + 8 * range 1 7)
+    | 8 -> (range 1 65535, range 1 65535)
+    | _ -> (8 * range 1 300, 8 * range 1 200)
+
+  (* sps_forced: (id, force_lists) *)
+  let gen_hsps_with (sps_id : int) : hsps_syntax =
+    let ms = if pct 60 then 0 else intn 7 in
+    let chroma = if pct 50 then 1 else intn 4 in
+    let (w, h) = gen_dims () in
+    let sw = if chroma = 1 || chroma = 2 then 2 else 1 and shh = if chroma = 1 then 2 else 1 in
+    let maxw = (w - 1) / sw and maxh = (h - 1) / shh in
+    let split m = let tot = if pct 20 then m else intn (min m 40 + 1) in let a = intn (tot + 1) in (a, tot - a) in
+    let (cl, cr) = split maxw and (ct, cb) = split maxh in
+    let bdl = if pct 50 then 0 else intn 7 and bdc = if pct 50 then 0 else intn 7 in
+    let l2poc = if pct 30 then 4 else intn 13 in
+    let slop = coin () in
+    let mincb = intn 4 in
+    let ctbsum = max 1 (range mincb 3) in
+    let nsets = match intn 20 with 0 | 1 -> 0 | 2 | 3 -> 1 | 4 -> 64 | 5 | 6 | 7 | 8 -> range 2 5 | _ -> range 2 14 in
+    let chain = pick [0; 30; 60; 85] in
+    let (sets, _) = gen_rps_list nsets chain in
+    let nlt = if pct 30 then 0 else if pct 20 then 1 else if pct 10 then 32 else range 2 9 in
+    let ncomp = if chroma = 0 then 1 else 3 in
+    let npal = if pct 4 then range 60 200 else range 1 6 in
+    { sx_sps_nuh_layer_id = nb (if pct 80 then 0 else intn 64); sx_sps_nuh_temporal_id_plus1 = nb (range 1 7);
+      sx_sps_video_parameter_set_id = nb (intn 16); sx_sps_max_sub_layers_minus1 = nb ms;
+      sx_sps_temporal_id_nesting_flag = coin (); sx_sps_ptl = gen_hptl ms;
+      sx_sps_seq_parameter_set_id = nb sps_id; sx_chroma_format_idc = nb chroma;
+      sx_separate_colour_plane_flag = coin ();
+      sx_pic_width_in_luma_samples = nb w; sx_pic_height_in_luma_samples = nb h;
+      sx_conformance_window_flag = pct 50;
+      sx_conf_win_left_offset = nb cl; sx_conf_win_right_offset = nb cr;
+      sx_conf_win_top_offset = nb ct; sx_conf_win_bottom_offset = nb cb;
+      sx_bit_depth_luma_minus8 = nb bdl; sx_bit_depth_chroma_minus8 = nb bdc;
+      sx_log2_max_pic_order_cnt_lsb_minus4 = nb l2poc;
+      sx_sps_sub_layer_ordering_info_present_flag = slop;
+      sx_sub_layer_ordering = L.init (if slop then ms + 1 else 1) (fun _ -> ((nb (intn 16), nb (intn 16)), nb (if pct 80 then intn 8 else intn 256)));
+      sx_log2_min_luma_coding_block_size_minus3 = nb (min mincb ctbsum);
+      sx_log2_diff_max_min_luma_coding_block_size = nb (ctbsum - min mincb ctbsum);
+      sx_log2_min_luma_transform_block_size_minus2 = nb (intn 4);
+      sx_log2_diff_max_min_luma_transform_block_size = nb (intn 4);
+      sx_max_transform_hierarchy_depth_inter = nb (intn 5); sx_max_transform_hierarchy_depth_intra = nb (intn 5);
+      sx_scaling_list_enabled_flag = pct 30; sx_sps_scaling_list_data_present_flag = pct 40;
+      sx_sps_scaling_list = gen_hsl ();
+      sx_amp_enabled_flag = coin (); sx_sample_adaptive_offset_enabled_flag = coin ();
+      sx_pcm_enabled_flag = pct 30; sx_pcm_sample_bit_depth_luma_minus1 = nb (intn 16);
+      sx_pcm_sample_bit_depth_chroma_minus1 = nb (intn 16);
+      sx_log2_min_pcm_luma_coding_block_size_minus3 = nb (intn 3);
+      sx_log2_diff_max_min_pcm_luma_coding_block_size = nb (intn 3);
+      sx_pcm_loop_filter_disabled_flag = coin ();
+      sx_st_ref_pic_sets = sets;
+      sx_long_term_ref_pics_present_flag = pct 50;
+      sx_lt_ref_pics_sps = L.init nlt (fun _ -> (nb (intn (1 lsl (l2poc + 4))), coin ()));
+      sx_sps_temporal_mvp_enabled_flag = coin (); sx_strong_intra_smoothing_enabled_flag = coin ();
+      sx_vui_parameters_present_flag = pct 40; sx_vui = gen_hvui ms;
+      sx_sps_extension_present_flag = pct 35;
+      sx_sps_range_extension_flag = pct 50; sx_sps_multilayer_extension_flag = pct 25;
+      sx_sps_3d_extension_flag = pct 25; sx_sps_scc_extension_flag = pct 50;
+      sx_sps_extension_4bits = nb (if pct 70 then 0 else intn 16);
+      sx_sps_range_extension = L.init 9 (fun _ -> coin ());
+      sx_inter_view_mv_vert_constraint_flag = coin ();
+      sx_sps_3d_extension =
+        { d3_iv_di_mc0 = coin (); d3_iv_mv_scal0 = coin (); d3_log2_ivmc = nb (intn 4); d3_iv_res_pred = coin ();
+          d3_depth_ref = coin (); d3_vsp_mc = coin (); d3_dbbp = coin (); d3_iv_di_mc1 = coin ();
+          d3_iv_mv_scal1 = coin (); d3_tex_mc = coin (); d3_log2_texmc = nb (intn 4); d3_intra_contour = coin ();
+          d3_intra_dc_only_wedge = coin (); d3_cqt_cu_part_pred = coin (); d3_inter_dc_only = coin ();
+          d3_skip_intra = coin () };
+      sx_sps_scc_extension =
+        { sx_sps_curr_pic_ref_enabled_flag = coin (); sx_palette_mode_enabled_flag = pct 60;
+          sx_palette_max_size = nb (intn 64); sx_delta_palette_max_predictor_size = nb (intn 64);
+          sx_sps_palette_predictor_initializers_present_flag = pct 60;
+          sx_sps_palette_predictor_initializer =
+            L.init ncomp (fun c -> L.init npal (fun _ -> nb (intn (1 lsl ((if c = 0 then bdl else bdc) + 8)))));
+          sx_motion_vector_resolution_control_idc = nb (intn 4);
+          sx_intra_boundary_filtering_disabled_flag = coin () };
+      sx_sps_extension_data_flags = L.init (if pct 50 then intn 12 else 0) (fun _ -> coin ()) }
+
+  let rec gen_valid_hsps id =
+    let v = gen_hsps_with id in
+    if hsps_valid v then v else (incr rejected; gen_valid_hsps id)
+  let gen_hpps_with (pps_id : int) (sps_id : int) : hpps_syntax =
+    let un = coin () in
+    let ncols = if pct 70 then intn 4 else intn 20 and nrows = if pct 70 then intn 4 else intn 20 in
+    let mono = coin () in
+    let lb = intn 9 and cb = intn 9 in
+    let npal = if pct 30 then 0 else if pct 5 then range 60 200 else range 1 6 in
+    { sx_pps_nuh_layer_id = nb (if pct 80 then 0 else intn 64); sx_pps_nuh_temporal_id_plus1 = nb (range 1 7);
+      sx_pps_pic_parameter_set_id = nb pps_id; sx_pps_seq_parameter_set_id = nb sps_id;
+      sx_dependent_slice_segments_enabled_flag = pct 60; sx_output_flag_present_flag = coin ();
+      sx_num_extra_slice_header_bits = nb (if pct 60 then 0 else intn 8);
+      sx_sign_data_hiding_enabled_flag = coin (); sx_cabac_init_present_flag = coin ();
+      sx_num_ref_idx_l0_default_active_minus1 = nb (if pct 70 then intn 4 else intn 15);
+      sx_num_ref_idx_l1_default_active_minus1 = nb (if pct 70 then intn 4 else intn 15);
+      sx_init_qp_minus26 = z (range (-26) 25); sx_constrained_intra_pred_flag = coin ();
+      sx_transform_skip_enabled_flag = coin (); sx_cu_qp_delta_enabled_flag = coin ();
+      sx_diff_cu_qp_delta_depth = nb (intn 4);
+      sx_pps_cb_qp_offset = z (range (-12) 12); sx_pps_cr_qp_offset = z (range (-12) 12);
+      sx_pps_slice_chroma_qp_offsets_present_flag = coin ();
+      sx_weighted_pred_flag = coin (); sx_weighted_bipred_flag = coin ();
+      sx_transquant_bypass_enabled_flag = coin ();
+      sx_tiles_enabled_flag = pct 40; sx_entropy_coding_sync_enabled_flag = pct 30;
+      sx_num_tile_columns_minus1 = nb ncols; sx_num_tile_rows_minus1 = nb nrows; sx_uniform_spacing_flag = un;
+      sx_column_width_minus1 = (if un then [] else L.init ncols (fun _ -> nb (ue_val 300)));
+      sx_row_height_minus1 = (if un then [] else L.init nrows (fun _ -> nb (ue_val 300)));
+      sx_loop_filter_across_tiles_enabled_flag = coin ();
+      sx_pps_loop_filter_across_slices_enabled_flag = pct 60;
+      sx_deblocking_filter_control_present_flag = pct 60; sx_deblocking_filter_override_enabled_flag = coin ();
+      sx_pps_deblocking_filter_disabled_flag = coin ();
+      sx_pps_beta_offset_div2 = z (range (-6) 6); sx_pps_tc_offset_div2 = z (range (-6) 6);
+      sx_pps_scaling_list_data_present_flag = pct 8; sx_pps_scaling_list = gen_hsl ();
+      sx_lists_modification_present_flag = pct 60; sx_log2_parallel_merge_level_minus2 = nb (intn 5);
+      sx_slice_segment_header_extension_present_flag = pct 25;
+      sx_pps_extension_present_flag = pct 40; sx_pps_range_extension_flag = pct 60;
+      sx_pps_multilayer_extension_flag = false; sx_pps_3d_extension_flag = false;
+      sx_pps_scc_extension_flag = pct 60; sx_pps_extension_4bits = nb (if pct 70 then 0 else intn 16);
+      sx_pps_range_extension =
+        { sx_log2_max_transform_skip_block_size_minus2 = nb (intn 4);
+          sx_cross_component_prediction_enabled_flag = coin (); sx_chroma_qp_offset_list_enabled_flag = coin ();
+          sx_diff_cu_chroma_qp_offset_depth = nb (intn 4);
+          sx_cb_cr_qp_offset_list = L.init (range 1 6) (fun _ -> (z (range (-12) 12), z (range (-12) 12)));
+          sx_log2_sao_offset_scale_luma = nb (intn 5); sx_log2_sao_offset_scale_chroma = nb (intn 5) };
+      sx_pps_scc_extension =
+        { sx_pps_curr_pic_ref_enabled_flag = pct 40; sx_residual_adaptive_colour_transform_enabled_flag = coin ();
+          sx_pps_slice_act_qp_offsets_present_flag = coin ();
+          sx_pps_act_y_qp_offset_plus5 = z (range (-7) 17); sx_pps_act_cb_qp_offset_plus5 = z (range (-7) 17);
+          sx_pps_act_cr_qp_offset_plus3 = z (range (-9) 15);
+          sx_pps_palette_predictor_initializers_present_flag = coin ();
+          sx_monochrome_palette_flag = mono; sx_luma_bit_depth_entry_minus8 = nb lb;
+          sx_chroma_bit_depth_entry_minus8 = nb cb;
+          sx_pps_palette_predictor_initializer =
+            (if npal = 0 then [] else
+               L.init (if mono then 1 else 3) (fun c -> L.init npal (fun _ -> nb (intn (1 lsl ((if c = 0 then lb else cb) + 8)))))) };
+      sx_pps_extension_data_flags = L.init (if pct 50 then intn 12 else 0) (fun _ -> coin ()) }
+
+  let rec gen_valid_hpps id sid =
+    let v = gen_hpps_with id sid in
+    if hpps_valid v then v else (incr rejected; gen_valid_hpps id sid)
+
+  let hexl (l : coq_N list list) = match l with [] -> "_" | _ -> S.concat "," (L.map hex_of_bytes l)
+  let ii x = string_of_int (int_of_n x)
+  let b2i b = if b then "1" else "0"
+
+  (* seq_parameter_set_extension_rbsp (7.3.2.1.2, NAL unit type 13): sps id, aux_format_idc 0, no additional extension *)
+  let sps_ext (id : int) : coq_N list = nalu_of (n 3) (n 13) (ue_bits (n id) @ ue_bits (n 0) @ [false])
+
+  let distinct_ids (k : int) (lim : int) : int list =
+    let rec go acc = if L.length acc = k then L.rev acc else
+        let i = intn lim in if L.mem i acc then go acc else go (i :: acc) in
+    go []
+
+  let gen_avc_set (i : int) =
+    let ns = pick [1; 1; 1; 2; 3] in
+    let ids = distinct_ids ns 32 in
+    let spss = L.map gen_valid_sps ids in
+    let s0 = L.hd spss in
+    let np = pick [0; 1; 1; 1; 2; 3] in
+    let ppss = L.init np (fun j ->
+        let k = intn ns in
+        gen_valid_pps (eff_chroma (L.nth spss k)) (if coin () then j else 255 - j) (L.nth ids k)) in
+    let sps_nalus = L.map nalu_sps spss @ (if pct 15 then [sps_ext (L.hd ids)] else []) in
+    Printf.printf "PSA\t%d\t%s\t%s\t%s\n" i (hexl sps_nalus) (hexl (L.map nalu_pps ppss))
+      (let hb = has_chroma_block s0.profile_idc in
+       S.concat "." [ii (display_width s0); ii (display_height s0); ii s0.profile_idc; ii (compat_byte s0); ii s0.level_idc;
+                     ii (eff_chroma_format_idc s0); ii (if hb then s0.bit_depth_luma_minus8 else N0);
+                     ii (if hb then s0.bit_depth_chroma_minus8 else N0)])
+
+  let gen_hevc_set (i : int) =
+    let ns = pick [1; 1; 1; 2] in
+    let ids = distinct_ids ns 16 in
+    let spss = L.map gen_valid_hsps ids in
+    let s0 = L.hd spss in
+    let np = pick [0; 1; 1; 1; 2; 3] in
+    let ppss = L.init np (fun j -> gen_valid_hpps (if coin () then j else 63 - j) (L.nth ids (intn ns))) in
+    let (w, h) = expected_himage_size s0 in
+    let g = s0.sx_sps_ptl.sx_general in
+    Printf.printf "PSH\t%d\t%s\t%s\t%s\n" i (hexl (L.map hnalu_sps spss)) (hexl (L.map hnalu_pps ppss))
+      (S.concat "." [ii w; ii h; ii g.sx_profile_space; b2i g.sx_tier_flag; ii g.sx_profile_idc; ii g.sx_profile_compatibility_flags;
+                     ii (constraint48 g); ii s0.sx_sps_ptl.sx_general_level_idc; ii s0.sx_chroma_format_idc;
+                     ii s0.sx_bit_depth_luma_minus8; ii s0.sx_bit_depth_chroma_minus8])
+
+  let run (seed : int) (cnt : int) =
+    seed_rng seed;
+    for i = 0 to cnt - 1 do gen_avc_set i done;
+    for i = 0 to cnt - 1 do gen_hevc_set i done;
+    Printf.printf "GENINFO\trejected=%d\n" !rejected
+end
+
 let verdict id m obs = if m = obs then Printf.printf "OK %s\n" id else Printf.printf "MISMATCH %s model=%s\n" id m
 
 let () =
@@ -187,6 +678,7 @@ let () =
           | _ -> "ERR" in
         if m = obs then Printf.printf "OK %s\n" id
         else Printf.printf "MISMATCH %s model=%s\n" id m
+      | ["GEN"; seed; cnt] -> G.run (int_of_string seed) (int_of_string cnt)
       | ["RA"; id; r; obs] ->
         let r = parse_avcrec r in
         let enc = avcrec_encode r in
